@@ -37,7 +37,15 @@ def generate(rng, i, tier):
     if rng.random() < 0.15:
         modes["unmatched-mode"] = "keep"
     m = gen.gen_member(rng, rows[0], len(rows), "m0", max_comps=6, modes=modes, zoo_p=0.5, zoo_pool=gen.ZOO)
-    return {"seed": rng.getrandbits(32), "rows": rows, "member": m, "policy": rng.choice(POLICIES), "dialect": rng.choice([[",", '"']] * 4 + [[";", '"'], [",", "'"]])}
+    return {
+        "seed": rng.getrandbits(32),
+        "rows": rows,
+        "member": m,
+        "policy": rng.choice(POLICIES),
+        "dialect": rng.choice([[",", '"']] * 4 + [[";", '"'], [",", "'"]]),
+        # every CsvPath of the scenario created by ONE CsvPaths instance (they then share its file cacher)
+        "via": rng.random() < 0.3,
+    }
 
 
 def reductions(sc):
@@ -51,6 +59,8 @@ def reductions(sc):
         yield c
     if sc["dialect"] != [",", '"']:
         yield with_(sc, dialect=[",", '"'])
+    if sc.get("via"):
+        yield with_(sc, via=False)
 
 
 def _st(cp, printed):
@@ -89,8 +99,10 @@ def execute(sc):
         w.write_csv("src/f.csv", sc["rows"], delimiter=delim, quotechar=quote)
         text = gen.render(sc["member"], "src/f.csv")
 
+        shared = ops.new_csvpaths(delim, quote) if sc.get("via") else None
+
         def mk():
-            cp = CsvPath(delimiter=delim, quotechar=quote)
+            cp = shared.csvpath() if shared is not None else CsvPath(delimiter=delim, quotechar=quote)
             tp = TestPrinter()
             cp.add_printer(tp)
             return cp, tp
@@ -145,6 +157,7 @@ def execute(sc):
         feats += sorted({c.split("(")[0].split("=")[-1].strip(" @#") for c in sc["member"]["comps"] if "(" in c})[:6]
         out.sig = [feats, len(yielded), len(sc["rows"]), "".join("b" if r == [] else "r" for r in sc["rows"])[:12], sc["policy"]]
         out.nontrivial = bool(yielded) and (bool(fin["variables"]) or bool(fin["printouts"]) or not fin["is_valid"])
+        out.probe("all instances created by one CsvPaths", bool(sc.get("via")))
         out.probe("stopped before the end of the file", fin["stopped"] and bool(yielded))
         out.probe("errors during the run", bool(fin["errors"]))
         out.log(yielded, fin, len(out.violations))
